@@ -130,12 +130,9 @@ impl BuildSystem {
                         return Ok(config);
                     }
                     Ok(None) => {}
-                    Err(e) => {
-                        self.logger.warning(&format!(
-                            "Failed to load config from tauri.conf.json: {}. Using defaults.",
-                            e
-                        ));
-                    }
+                    // Settings that are there but unusable are an error, as they are for the
+                    // CLI: falling back to the defaults would generate into another directory
+                    Err(e) => return Err(e),
                 }
             }
         }
@@ -148,12 +145,7 @@ impl BuildSystem {
                     self.logger.debug("Loaded configuration from typegen.json");
                     return Ok(config);
                 }
-                Err(e) => {
-                    self.logger.warning(&format!(
-                        "Failed to load config from typegen.json: {}. Using defaults.",
-                        e
-                    ));
-                }
+                Err(e) => return Err(e),
             }
         }
 
